@@ -29,6 +29,9 @@ def check(repo: Repo, rep, tier):
     from .C02 import frame_locals
 
     frame_locals(repo, rep)
+    from .C05 import flag_label
+
+    flag_label(repo, rep)
     from .C03 import char_units, range_prov
 
     range_prov(repo, rep)
